@@ -66,7 +66,14 @@ class ParkConn(socket.socket):
 
 
 class ParkListener(socket.socket):
-    """A listening AF_UNIX socket whose blocking accept is a scheduler park point."""
+    """A listening AF_UNIX socket whose blocking accept is a scheduler park point.  serve_unix creates it itself
+    (`socket.socket(...)` in vgi_rpc.rpc._transport resolves to this class through the module-attribute shim)."""
+
+    def listen(self, *a):
+        w = _CUR["w"]
+        if w is not None:
+            w.listener = self
+        return super().listen(*a)
 
     def accept(self):
         w = _CUR["w"]
@@ -185,6 +192,37 @@ class Impl:
         raise ValueError(f"init boom tag={tag}")
 
 
+def _batch_without_schema() -> bytes:
+    import io
+
+    from pyarrow import ipc
+
+    sink = io.BytesIO()
+    with ipc.new_stream(sink, INP) as wr:
+        wr.write_batch(pa.RecordBatch.from_pydict({"a": [1]}, schema=INP))
+    data = sink.getvalue()
+    rd = pa.BufferReader(data)
+    ipc.read_message(rd)
+    return data[rd.tell():]
+
+
+def probe_tcp_entry(mx: int) -> dict:
+    """What serve_tcp(threaded=True, max_connections=mx) hands to the accept loop (the loop itself is not run: TCP
+    loopback delivery is not synchronous enough for the scheduler's readiness test)."""
+    got: dict = {}
+    saved = T._serve_socket_threaded
+
+    def rec(server, sock, max_connections, idle_timeout, transport_factory, prefix):
+        got.update(mx=max_connections or 0, idle=idle_timeout, factory=getattr(transport_factory, "__name__", "?"))
+
+    T._serve_socket_threaded = rec
+    try:
+        T.serve_tcp(RpcServer(IsoSvc, Impl()), "127.0.0.1", 0, threaded=True, max_connections=mx if mx > 0 else None)
+    finally:
+        T._serve_socket_threaded = saved
+    return got
+
+
 def tag_of(c: int) -> int:
     return 100 * c + c
 
@@ -238,19 +276,35 @@ class ConnWorld:
         ns.BoundedSemaphore = ns.Semaphore
         ns.current_thread = current_thread
         self.ns = ns
-        self.listener = ParkListener(socket.AF_UNIX, socket.SOCK_STREAM)
-        self.listener.bind(self.path)
-        self.listener.listen(16)
+        self.listener = None          # created, bound and listened on by serve_unix itself
+        self.entry: dict = {}         # what the public entry point handed to the accept loop
+        import types
+
+        self.sock_ns = types.SimpleNamespace(**{k: getattr(socket, k) for k in dir(socket) if not k.startswith("__")})
+        self.sock_ns.socket = ParkListener
         self.server = RpcServer(IsoSvc, Impl())
 
     # ------------------------------------------------------------------ lifecycle
     def __enter__(self) -> "ConnWorld":
         _CUR["w"] = self
+        self._saved = (T.socket, T.UnixTransport, T._serve_socket_threaded)
+        real_loop = T._serve_socket_threaded
+
+        def recording_loop(server, sock, max_connections, idle_timeout, transport_factory, prefix):
+            self.entry = {"mx": max_connections or 0, "idle": idle_timeout, "factory": getattr(transport_factory, "__name__", "?")}
+            return real_loop(server, sock, max_connections, idle_timeout, transport_factory, prefix)
+
+        def on_bound(path):
+            # the socket path exists from here on: only now can clients connect (they are spawned parked at `start`)
+            for c in sorted(self.scripts):
+                self.sched.spawn(f"c{c}", self._client, c)
+
         T.threading = self.ns
-        self.sched.spawn("loop", T._serve_socket_threaded, self.server, self.listener, self.max_connections, None,
-                         TracedUnixTransport, "vgi-c41")
-        for c in sorted(self.scripts):
-            self.sched.spawn(f"c{c}", self._client, c)
+        T.socket = self.sock_ns
+        T.UnixTransport = TracedUnixTransport
+        T._serve_socket_threaded = recording_loop
+        self.sched.spawn("loop", T.serve_unix, self.server, self.path, threaded=True,
+                         max_connections=self.max_connections, on_bound=on_bound)
         return self
 
     def __exit__(self, *exc) -> None:
@@ -261,6 +315,7 @@ class ConnWorld:
                 th.join(2.0)
         finally:
             T.threading = _REAL
+            T.socket, T.UnixTransport, T._serve_socket_threaded = self._saved
             _CUR["w"] = None
             shutil.rmtree(self.dir, ignore_errors=True)
 
@@ -268,7 +323,8 @@ class ConnWorld:
         if not self.listener_closed:
             self.listener_closed = True
             try:
-                self.listener.close()
+                if self.listener is not None:
+                    self.listener.close()
             except OSError:
                 pass
 
@@ -306,6 +362,13 @@ class ConnWorld:
                             sess.close()
                             obs("c", 0)
                             sess = None
+                        elif op == "g":
+                            # a record batch without a schema message: pyarrow's OSError escapes RpcServer.serve
+                            s.sendall(_batch_without_schema())
+                            buf = bytearray(4096)
+                            while s.recv_into(buf):
+                                pass
+                            obs("x", 0)
                     except RpcError as e:
                         # an error answer is part of the history: the connection's own (it names the call's argument) or not
                         obs("e", tag if f"tag={tag}" in str(e) else 0)
@@ -407,6 +470,7 @@ def run_schedule(scripts: dict[int, list[str]], mx: int, steps: list[tuple]) -> 
         stuck = [n for n in sched.threads if n not in sched.done]
         labels = {n: w.label(n) for n in stuck}
         events = list(sched.events)
+        entry = dict(w.entry)
         errors = dict(w.client_errors)
         terrs = {n: f"{type(e).__name__}: {e}" for n, e in sched.errors.items()}
     n = max(scripts)
@@ -422,7 +486,7 @@ def run_schedule(scripts: dict[int, list[str]], mx: int, steps: list[tuple]) -> 
             mon.append({"e": e["e"], "c": e["c"]})
         elif e["e"] in ("MBegin", "MEnd"):
             mon.append({"e": e["e"], "c": tagc.get(e["tag"], 0)})
-    return {"trace": trace, "drift": drift, "hang": hang, "stuck": labels, "obs": obs, "done": done, "mon": mon,
+    return {"trace": trace, "drift": drift, "hang": hang, "stuck": labels, "obs": obs, "done": done, "mon": mon, "entry": entry,
             "client_errors": errors, "thread_errors": terrs, "n": n}
 
 
